@@ -160,8 +160,12 @@ dumper::dump_charp (std::ostream &os, char const *buf, size_t len, format fmt)
 	  {
 #define ESCAPE(L, E) case L: os << E; break
 
-	    ESCAPE (0, "\\0");
-	    ESCAPE ('"', "\\");
+	    // N.B. "\0" followed by a digit would read back as another
+	    // character, so spell the octal escape in full.
+	    ESCAPE (0, "\\000");
+	    ESCAPE ('"', "\\\"");
+	    // A lone percent sign would start a formatting directive.
+	    ESCAPE ('%', "%%");
 	    ESCAPE ('\\', "\\\\");
 	    ESCAPE ('\a', "\\a");
 	    ESCAPE ('\b', "\\b");
@@ -179,8 +183,10 @@ dumper::dump_charp (std::ostream &os, char const *buf, size_t len, format fmt)
 	    else
 	      {
 		ios_flag_saver ifs {os};
+		char fill = os.fill ('0');
 		os << "\\x" << std::hex << std::setw (2)
 		   << (unsigned) (unsigned char) buf[i];
+		os.fill (fill);
 	      }
 	  }
       os << '"';
